@@ -74,6 +74,7 @@ def corpus():
     items.extend(synthetic(items))
     from checks import c11_handmade
     items.extend(c11_handmade.listings())
+    items.extend(rerun_twins(items))
     _STATE['corpus'] = items
     _STATE['by_name'] = {it['name']: i for i, it in enumerate(items)}
     return items
@@ -129,6 +130,39 @@ def synthetic(items):
                     'origin': item['name'], 'nbatch': nbatch})
         if len(out) >= 6:
             break
+    return out
+
+
+def rerun_twins(items):
+    '''The same job run again in place with another seed: same file name,
+    same size byte for byte (Tripoli-4 prints fixed-width numbers), other
+    numbers.  A reader that has seen one and is handed the other at the same
+    path with the same crash point must not confuse them.'''
+    import re
+    out = []
+    pat = re.compile(rb'(?<![\d.])([1-8])(\.\d{6}e[+-]\d\d)')
+    for item in items:
+        if item.get('path') is None and not item.get('handmade'):
+            continue
+        if 'failure' in item['base'] or len(out) >= 5:
+            continue
+        if not (item.get('handmade') or item['base'].startswith(
+                ('ttsSimplePacket20.d.res', 'tungstene.d.res',
+                 'vov.d.res'))):
+            continue
+        data = item['data']
+        start = data.find(b'RESULTS ARE GIVEN')
+        if start < 0:
+            continue
+        head, body = data[:start], data[start:]
+        new = pat.sub(lambda m: bytes([m.group(1)[0] + 1]) + m.group(2), body)
+        if new == body or len(new) != len(body):
+            continue
+        twin = {'name': 'rerun/' + item['base'], 'path': None,
+                'base': item['base'], 'data': head + new,
+                'twin_of': item['name'], 'rerun': True}
+        out.append(twin)
+        item['twin'] = twin['name']
     return out
 
 
@@ -213,6 +247,18 @@ def build_refs():
                     any(ref['res'].get(b) is None for b in ref['batches'])):
                 dropped.append(item['name'])
                 item['dropped'] = True
+            continue
+        if item.get('rerun'):
+            ref = refs[idx]
+            oref = refs[by_name[item['twin_of']]]
+            foreign = ref['scan'].startswith('other') or ref.get('other')
+            if not foreign and (ref['scan'] != 'ok' or
+                                ref['batches'] != oref['batches'] or
+                                any(ref['res'].get(b) is None
+                                    for b in ref['batches'])):
+                dropped.append(item['name'])
+                item['dropped'] = True
+                items[by_name[item['twin_of']]].pop('twin', None)
             continue
         if 'origin' not in item:
             continue
@@ -457,6 +503,11 @@ def gen_history(rng, fam):
         else:
             cut = rng.randrange(0, size + 1)
         ops.append([item['name'], min(cut, size)])
+        other = item.get('twin') or item.get('twin_of')
+        if other and rng.random() < 0.7 and \
+                not items[_STATE['by_name'][other]].get('dropped'):
+            # the job was re-run in place and killed at the same point
+            ops.append([other, min(cut, size)])
     scn = {'kind': 'listings', 'ops': ops}
     if fam.get('threads'):
         scn['threads'] = True
